@@ -2,6 +2,7 @@ package g1lib
 
 import (
 	"context"
+	"encoding/json"
 	"fmt"
 	"math"
 	"math/big"
@@ -276,7 +277,7 @@ func junkNumber(s *Spec, rnd *rand.Rand, isInt bool) Raw {
 		{"abc", "string", "malformed-alpha", -1},
 		{"12abc", "string", "malformed-trailing-garbage", -1},
 		{"--5", "string", "malformed-alpha", -1},
-		{"0x1A", "string", "malformed-trailing-garbage", -1},
+		{"0x1A", "string", "hex-text", -1},
 		{" 12", "string", "leading-space", 0},
 		{"12 ", "string", "trailing-space", 0},
 		{"+5", "string", "plus-sign", 0},
@@ -291,8 +292,8 @@ func junkNumber(s *Spec, rnd *rand.Rand, isInt bool) Raw {
 		{[]byte{0x01, 0x02}, "bytes", "bytes-as-number", 0},
 	}
 	if !isInt {
-		js = append(js, j{"1.5abc", "string", "malformed-trailing-garbage", -1}, j{"nan", "string", "malformed-alpha", -1},
-			j{"inf", "string", "malformed-alpha", -1})
+		js = append(js, j{"1.5abc", "string", "malformed-trailing-garbage", -1}, j{"nan", "string", "nan-text", -1},
+			j{"inf", "string", "inf-text", -1})
 	}
 	p := js[rnd.Intn(len(js))]
 	r := Raw{V: p.v, Repr: p.repr, Class: p.class, Accept: p.accept}
@@ -621,6 +622,9 @@ func genChar(s *Spec, rnd *rand.Rand) Raw {
 			txt += "x"
 		}
 		class = "over-long"
+		if len(txt) != utf8.RuneCountInString(txt) {
+			class = "over-long-multibyte"
+		}
 	case 3:
 		bad := []string{"\xff", "a\xc3", "\xf0\x9f\x98", "ab\xfe"}
 		txt, class = bad[rnd.Intn(len(bad))], "invalid-utf8"
@@ -637,10 +641,15 @@ func genChar(s *Spec, rnd *rand.Rand) Raw {
 	}
 	r := Raw{Class: class, Lit: Quote(txt)}
 	switch class {
-	case "over-long":
+	case "over-long", "over-long-multibyte":
 		r.Accept = -1
 	case "invalid-utf8":
 		r.Accept, r.Lit = -1, ""
+		if s.Coll.CharacterSet().Name() != "utf8mb4" {
+			// bytes handed to a column of another character set are read in that character set (every byte
+			// string is valid latin1): not judged
+			r.Accept = 0
+		}
 	default:
 		r.Exact, r.Accept, r.Want = true, +1, txt
 		if strings.HasSuffix(txt, " ") {
@@ -1345,6 +1354,10 @@ func genJSON(s *Spec, rnd *rand.Rand) Raw {
 	txt, err := types.JsonToMySqlString(context.Background(), doc)
 	if err == nil {
 		r.Lit = Quote(txt)
+		if rnd.Intn(3) == 0 {
+			// the document as JSON text: must be accepted; which Go number types the parser picks is not judged
+			return Raw{V: txt, Repr: "string", Class: "json-text:" + jsonKind(tree), Accept: +1, Lit: Quote(txt)}
+		}
 	}
 	return r
 }
@@ -1449,4 +1462,82 @@ func RefCompare(kind string, a, b any) (int, bool) {
 		return strings.Compare(string(x), string(y)), true
 	}
 	return 0, false
+}
+
+// SameStored says whether two stored Go values of a kind are the same value in the same stored form.
+func SameStored(kind string, a, b any) bool {
+	a, _ = sql.UnwrapAny(context.Background(), a)
+	b, _ = sql.UnwrapAny(context.Background(), b)
+	if a == nil || b == nil {
+		return a == nil && b == nil
+	}
+	switch kind {
+	case "decimal":
+		x, ok1 := a.(*apd.Decimal)
+		y, ok2 := b.(*apd.Decimal)
+		return ok1 && ok2 && x.Form == apd.Finite && y.Form == apd.Finite && x.Cmp(y) == 0
+	case "float":
+		switch x := a.(type) {
+		case float32:
+			y, ok := b.(float32)
+			return ok && x == y
+		case float64:
+			y, ok := b.(float64)
+			return ok && x == y
+		}
+		return false
+	case "char":
+		x, ok1 := a.(string)
+		y, ok2 := b.(string)
+		return ok1 && ok2 && x == y
+	case "binary":
+		x, ok1 := a.([]byte)
+		y, ok2 := b.([]byte)
+		return ok1 && ok2 && string(x) == string(y)
+	case "date", "datetime", "timestamp":
+		x, ok1 := a.(time.Time)
+		y, ok2 := b.(time.Time)
+		return ok1 && ok2 && x.Equal(y)
+	case "json":
+		x, ok1 := a.(sql.JSONWrapper)
+		y, ok2 := b.(sql.JSONWrapper)
+		if !ok1 || !ok2 {
+			return false
+		}
+		xi, e1 := x.ToInterface(context.Background())
+		yi, e2 := y.ToInterface(context.Background())
+		if e1 != nil || e2 != nil {
+			return false
+		}
+		xb, e1 := json.Marshal(xi)
+		yb, e2 := json.Marshal(yi)
+		return e1 == nil && e2 == nil && string(xb) == string(yb)
+	}
+	return fmt.Sprintf("%T:%v", a, a) == fmt.Sprintf("%T:%v", b, b)
+}
+
+// StoredText is an exact text of a stored value (used for idempotence: the second conversion must not change even
+// the scale of a decimal).
+func StoredText(kind string, v any) string {
+	v, _ = sql.UnwrapAny(context.Background(), v)
+	switch x := v.(type) {
+	case *apd.Decimal:
+		return "dec:" + x.Text('f')
+	case []byte:
+		return fmt.Sprintf("bytes:%x", x)
+	case time.Time:
+		return "time:" + x.UTC().Format("2006-01-02 15:04:05.000000000")
+	case float64:
+		return "f64:" + strconv.FormatFloat(x, 'g', -1, 64)
+	case float32:
+		return "f32:" + strconv.FormatFloat(float64(x), 'g', -1, 32)
+	case sql.JSONWrapper:
+		in, err := x.ToInterface(context.Background())
+		if err != nil {
+			return "json:?"
+		}
+		b, _ := json.Marshal(in)
+		return "json:" + string(b)
+	}
+	return fmt.Sprintf("%T:%v", v, v)
 }
